@@ -81,9 +81,9 @@ type Agent struct {
 
 // New returns an agent over a fresh keyring.
 func New() *Agent {
-	kr := agent.NewKeyring()
+	kr := newExtRing()
 	a := &Agent{Keyring: kr, KeepReq: true}
-	a.Rec = &Recorder{inner: kr.(agent.ExtendedAgent)}
+	a.Rec = &Recorder{inner: kr}
 	return a
 }
 
